@@ -480,6 +480,8 @@ def finish(ctx, level="model_checking", rule="", confirm=None):
     known = load_known()
     reported = []
     seen_sig = {}
+    confirmed, tried = {}, {}
+    ctx.violations.sort(key=lambda v: 0 if isinstance(v.get("vector"), dict) and str(v["vector"].get("k", "")).endswith("_seq") else 1)
     for v in ctx.violations:
         kf = next((k for k in known if matches(k, ctx.prop, v)), None)
         if kf:
@@ -487,8 +489,9 @@ def finish(ctx, level="model_checking", rule="", confirm=None):
             continue
         sig = (v["ev"], v["why"])
         seen_sig[sig] = seen_sig.get(sig, 0) + 1
-        if seen_sig[sig] > 3:        # enough witnesses of this kind
+        if confirmed.get(sig, 0) >= 3 or tried.get(sig, 0) >= 12:     # enough witnesses of this kind
             continue
+        tried[sig] = tried.get(sig, 0) + 1
         if confirm is not None:
             # verdicts only from real-code behaviour: re-execute that single case
             try:
@@ -500,6 +503,7 @@ def finish(ctx, level="model_checking", rule="", confirm=None):
                 ctx.notes.append("unreproduced: %s / %s" % sig)
                 log("  NOTE unreproduced on replay (not reported): %s %s" % sig)
                 continue
+        confirmed[sig] = confirmed.get(sig, 0) + 1
         reported.append(v)
     printed = set()
     for kf, v in ctx.known:
